@@ -1,3 +1,5 @@
+import os
+
 from lib.props.meta_common import ASSUME_COMMON
 
 ID = "C04"
@@ -20,5 +22,6 @@ META = dict(
         "which mutations survive is read off the docstring's 'retain only the history of the samples': a mutation "
         "survives iff it sits above at least one chosen sample at its site",
     ],
-    BUDGET={"quick": 50.0, "thorough": 900.0},
+    # the env var only exists to shorten trial runs of the thorough tier
+    BUDGET={"quick": 50.0, "thorough": float(os.environ.get("VERIF_C04_THOROUGH_BUDGET", 900.0))},
 )
